@@ -5,7 +5,8 @@
 (* kind = "probe" (stage 1, three-way, exact): a probe program in the IR   *)
 (*   of EvalData.tla, lattice data, the state left by the compiled code    *)
 (*   (impl), the state left by the reference executor (ref), the executor's *)
-(*   hook-order log (reflog), the symbol table extracted from the real     *)
+(*   hook-order log (reflog), ratbits = number of stored doubles on which  *)
+(*   impl and ref differ bit for bit, the symbol table extracted from the  *)
 (*   precomputed_symbols() and the evaluation orders the real Group chose. *)
 (*   TLC computes Eval(x) and demands  Eval = impl = ref.                  *)
 (* kind = "class" (stage 2): one shipped Equation class x kernel x dim:    *)
@@ -30,7 +31,7 @@ RecAt(R, m) ==      \* the same position of a recorded state (1..)
 ProbeVerdict(x) ==
     IF Failed(x)
     THEN [id |-> x.id, kind |-> "probe", ok |-> FALSE, crashed |-> TRUE,
-          impl_ok |-> FALSE, ref_ok |-> FALSE, order_ok |-> FALSE, symtab_ok |-> FALSE,
+          impl_ok |-> FALSE, ref_ok |-> FALSE, agree |-> FALSE, order_ok |-> FALSE, symtab_ok |-> FALSE,
           usable |-> TRUE, nimpl |-> 0, nref |-> 0, first |-> <<>>, nev |-> 0, nloop |-> 0,
           orderdiff |-> 0]
     ELSE
@@ -47,7 +48,7 @@ ProbeVerdict(x) ==
         m == CHOOSE v \in mi \cup mr : TRUE
     IN [id |-> x.id, kind |-> "probe", crashed |-> FALSE,
         ok |-> mi = {} /\ mr = {} /\ df = 0 /\ st /\ x.ratbits = 0,
-        impl_ok |-> mi = {}, ref_ok |-> mr = {} /\ x.ratbits = 0, order_ok |-> df = 0,
+        impl_ok |-> mi = {}, ref_ok |-> mr = {}, agree |-> x.ratbits = 0, order_ok |-> df = 0,
         symtab_ok |-> st, usable |-> usable,
         nimpl |-> Cardinality(mi), nref |-> Cardinality(mr),
         first |-> IF mi \cup mr = {} THEN <<>>
